@@ -29,11 +29,15 @@ type Config struct {
 	StubImpl   bool
 	SkipEnsure bool
 	WithResets bool
+
+	// OutFile, if set, names the file the generated code is going to
+	// replace. Its current content does not influence the output.
+	OutFile string
 }
 
 // New makes a new Mocker for the specified package directory.
 func New(cfg Config) (*Mocker, error) {
-	reg, err := registry.New(cfg.SrcDir, cfg.PkgName)
+	reg, err := registry.New(cfg.SrcDir, cfg.PkgName, cfg.OutFile)
 	if err != nil {
 		return nil, err
 	}
